@@ -562,7 +562,7 @@ def run(ctx):
     ctx.rule("R7", "reshaped / transposed data lands on the elements the layout prescribes", "a lattice, coefficient block or coordinate set is loaded transposed or in the wrong memory order")
     from .indexmaps import check_index_maps
 
-    check_index_maps(ctx, "R7", ["extxyz_lattice", "wfx_mo", "molden_mo", "vasp_direct"])
+    check_index_maps(ctx, "R7", ["extxyz_lattice", "wfx_mo", "molden_mo", "vasp_direct", "vasp_axes", "cube_cellvecs"])
     ctx.floor("R7", ctx.rules["R7"]["obligations"], 5, "index-map sites")
 
     check_narrow_counters(ctx)
